@@ -56,9 +56,17 @@ func handleDigestAuthFunc(username, password string) ResponseMiddleware {
 				return errDigestUnreplayable
 			}
 			if r.isMultiPart && r.forceChunkedEncoding {
+				if r.unReplayableUpload {
+					// a part was read from an io.Reader that cannot be rewound
+					return errDigestUnreplayable
+				}
 				// the pipe of a streamed multipart body was consumed as well: write
-				// the body again (every other body is replayed by GetBody as it is)
-				err = parseRequestBody(client, r)
+				// the body again (every other body is replayed by GetBody as it is).
+				// Only the body: the client-level form data was merged into the
+				// request by the first attempt, and the readers of the parts are
+				// rewound as for a retry.
+				r.bodyRewrite = true
+				err = handleMultiPart(client, r)
 				if err != nil {
 					return err
 				}
